@@ -1571,3 +1571,49 @@ func (w *poolWorld) Key() string {
 	}
 	return b.String()
 }
+
+// Feature abstracts the pool's state for automatic root selection: per channel
+// its reported state, refresh status, refresh count, in-flight load; the
+// bindings and stand-ins; the open calls; the distinct pickers still reachable.
+func (w *poolWorld) Feature() string {
+	var b strings.Builder
+	min2 := func(n int) int {
+		if n > 2 {
+			return 2
+		}
+		return n
+	}
+	for _, s := range w.slots {
+		if s.gone {
+			b.WriteString("gone;")
+			continue
+		}
+		fmt.Fprintf(&b, "%v,r%v,p%v,k%d,s%d,i%d;", s.state, s.refreshing, s.pending != nil, min2(s.k), min2(s.swaps), min2(s.inflight))
+	}
+	var ks []string
+	for k, s := range w.bind {
+		ks = append(ks, fmt.Sprintf("%s@%d:%v", k, s.idx, s.state))
+	}
+	for k, s := range w.standin {
+		ks = append(ks, fmt.Sprintf("%s~%d", k, s.idx))
+	}
+	sort.Strings(ks)
+	b.WriteString(strings.Join(ks, ","))
+	past, open := 0, 0
+	for _, c := range w.calls {
+		if c.returned && c.sc != nil {
+			open++
+			if c.hasDL && !w.s.Clock().Before(c.deadline) {
+				past++
+			}
+		}
+	}
+	pubs := map[*publication]bool{}
+	for _, g := range []string{"L", "P", "O"} {
+		if p := w.pubFor(g); p != nil {
+			pubs[p] = true
+		}
+	}
+	fmt.Fprintf(&b, "|open%d,past%d|pickers%d", min2(open), min2(past), len(pubs))
+	return b.String()
+}
